@@ -4,7 +4,7 @@ from fractions import Fraction as F
 
 from hypothesis import strategies as st
 
-from geomdl import compatibility, convert, CPGen, NURBS, BSpline
+from geomdl import compatibility, convert, CPGen, NURBS, BSpline, operations
 
 from vp import gen, build, ref, shape
 from vp.core import SubCheck
@@ -312,6 +312,18 @@ def check_convert(case, ctx):
     lat = shape.obj_lattice(obj)
     ctx.label("kind:" + d["kind"])
     ctx.label("4-D", d["dim"] == 4)
+    # one more spatial coordinate for every control point (operations.add_dimension): the weights stay with their points and the
+    # weighted points are the new points times their weights
+    off = [0.0, 2.5, -1.25][len(d["P"]) % 3]
+    src = build.make(d)
+    src_before = build.snapshot(src)
+    up = operations.add_dimension(src, offset=off)
+    P_up = [list(q) + [off] for q in d["P"]]
+    ctx.check(_pts_equal(up.ctrlpts, P_up), "add-dimension-points", "add_dimension(offset=%r): control points %r..., expected %r..." % (off, [list(q) for q in up.ctrlpts][:2], P_up[:2]))
+    if d["rational"]:
+        ctx.check(all(_close(x, y) for x, y in zip(up.weights, d["W"])) and len(up.weights) == len(d["W"]), "add-dimension-weights", "add_dimension changed the weights")
+        ctx.check(_pts_equal(up.ctrlptsw, build.homogeneous(P_up, d["W"])), "add-dimension-weighted", "add_dimension(offset=%r): the weighted points are not the new points times their weights: %r..." % (off, [list(q) for q in up.ctrlptsw][:2]))
+    ctx.check(build.snapshot(src) == src_before, "add-dimension-modified-input", "add_dimension without inplace changed its input")
     if not d["rational"]:
         ctx.nt(True, "bspline->nurbs->bspline")
         n = convert.bspline_to_nurbs(obj)
